@@ -33,10 +33,13 @@ Check(r) ==
       g == Grammar(AsToks(kinds))
       p1 == IF ~r.toks_ok THEN <<"lexer-panic">> ELSE IF ~Tiles(r.src, real) THEN <<"tiling">> ELSE <<>>
       p2 == IF r.toks_ok /\ Tiles(r.src, real) /\ real # spec THEN <<"lexdiff">> ELSE <<>>
+      \* a tree nested deeper than the JSON reader can take is given by its leaves only (r.deep, r.leaves)
+      flat == TLCEval([i \in 1..Len(r.leaves) |-> [k |-> r.leaves[i][1], len |-> r.leaves[i][2]]])
       p3 == IF ~r.tree_ok THEN <<"parser-failed">>
+            ELSE IF r.deep THEN (IF flat # real THEN <<"leaves">> ELSE <<>>)
             ELSE IF LeafRecsSeq(r.tree, 1) # real \/ LeavesSeq(sib, 1) # [i \in 1..Len(real) |-> i] THEN <<"leaves">> ELSE <<>>
-      p4 == IF r.tree_ok /\ r.toks_ok /\ sib # ParseRoot(kinds).sib THEN <<"treediff">> ELSE <<>>
-      p5 == IF r.tree_ok /\ r.toks_ok /\ g.ok /\ TreeResults(sib) # g.asts THEN <<"refines">> ELSE <<>> IN
+      p4 == IF r.tree_ok /\ ~r.deep /\ r.toks_ok /\ sib # ParseRoot(kinds).sib THEN <<"treediff">> ELSE <<>>
+      p5 == IF r.tree_ok /\ ~r.deep /\ r.toks_ok /\ g.ok /\ TreeResults(sib) # g.asts THEN <<"refines">> ELSE <<>> IN
   [problems |-> p1 \o p2 \o p3 \o p4 \o p5, wf |-> g.ok /\ Len(g.asts) >= 1, ntoks |-> Len(real)]
 
 VARIABLES l, nwf
